@@ -1270,8 +1270,15 @@ fn judge(sc: &Scenario, o: &Oracle, hanging: Vec<String>, vanish_t0_us: Option<u
         features.push("phantom_streams=true".into());
     }
     if (sc.net.forge_ppm == 0 || sc.net.forge_mode == 1) && !vanished && !timed_out && o.server_preamble_failures > 0 && !sc.streams.iter().any(|s| s.client.read_stop_at.is_some() || s.client.write_stop_at.is_some()) {
+        // Targeted forgeries change no queue or stream id, yet a forged copy that arrives after
+        // its stream has completed and been freed (jitter) is handed to the acceptor as the
+        // first packet of a *new* stream, which the server application then accepts and which
+        // dies of its idle timeout 30 s later: an unauthenticated packet is acted upon. When
+        // every stream of the scenario itself completed, that is what happened and it gets a
+        // signature of its own; otherwise a real stream failed.
+        let phantom = sc.net.forge_mode == 1 && findings.is_empty();
         findings.push(Finding {
-            sig: format!("c20:{t}:unexpected_error:{}", if net.dropped_random + net.dropped_burst + net.dropped_kth > 0 { "lossy_network" } else { "lossless_network" }),
+            sig: if phantom { format!("c20:{t}:phantom_stream_accepted_from_forged_packet") } else { format!("c20:{t}:unexpected_error:{}", if net.dropped_random + net.dropped_burst + net.dropped_kth > 0 { "lossy_network" } else { "lossless_network" }) },
             what: format!("{} accepted stream(s) failed on the server before the first 8 bytes could be read although both endpoints are alive: {:?}", o.server_preamble_failures, o.errors.iter().filter(|e| e.0.starts_with("server:preamble")).collect::<Vec<_>>()),
         });
     }
